@@ -52,6 +52,9 @@ type vf4Env struct {
 	// loader-built deployments: the trusted keys are whatever the real loader made of the configuration
 	fixedKeys bool
 	named     map[string]crypto.Signer // every private key that exists around the configuration, by name
+	// round 5: a deployment with a long trusted-key list (one verification takes tens of milliseconds)
+	slowKeys []crypto.PublicKey
+	slowPer  time.Duration
 }
 
 const (
@@ -805,6 +808,10 @@ func TestVerifC04(t *testing.T) {
 		}
 		if len(f) == 3 && f[0] == "seq" {
 			io.emit("%s", e.vf4SeqOp(f))
+			continue
+		}
+		if len(f) == 4 && f[0] == "ovl" {
+			io.emit("%s", e.vf4OvlOp(f))
 			continue
 		}
 		if len(f) < 7 || f[0] != "op" {
